@@ -101,7 +101,7 @@ pub fn plan(property: &str) -> Option<CheckPlan> {
             ],
             real: R_REAL.to_vec(),
             stubbed: R_STUB.to_vec(),
-            items: vec![PlanItem { family: &rsim::reqrep::RR_CLEAN, quick: 200_000, thorough: 5_000_000 }, PlanItem { family: &nsim::rrslow::RR_SLOW, quick: 200, thorough: 8_000 }],
+            items: vec![PlanItem { family: &rsim::reqrep::RR_CLEAN, quick: 200_000, thorough: 5_000_000 }, PlanItem { family: &rsim::reqrep::RR_WAKE, quick: 100_000, thorough: 2_500_000 }, PlanItem { family: &nsim::rrslow::RR_SLOW, quick: 200, thorough: 8_000 }],
         }),
         "C09" => Some(CheckPlan {
             property: "C09",
@@ -133,7 +133,7 @@ pub fn plan(property: &str) -> Option<CheckPlan> {
             assumptions: vec!["success (connect + first registration + one delivered message) is expected iff both sides are CA-issued; for the trusted pairing it is demanded only on a loss-free network", "a refusal may surface at connect() or at the first registration (TLS 1.3 validates the client certificate after the client has finished)"],
             real: N_REAL.to_vec(),
             stubbed: N_STUB.to_vec(),
-            items: vec![PlanItem { family: &nsim::mtls::MTLS, quick: 240, thorough: 19_200 }],
+            items: vec![PlanItem { family: &nsim::mtls::MTLS, quick: 320, thorough: 25_600 }],
         }),
         "C16" => Some(CheckPlan {
             property: "C16",
